@@ -318,3 +318,34 @@ def run(ctx, rep, tier):
                 rep.check(not mutated, "C20.e", q, f"default {a.arg}={ast.unparse(d)}", "a mutable default argument is mutated: it accumulates across calls and compilations", line=f.lineno)
     if n_def < 1:
         raise AnalysisError("C20.e: no mutable default found (OutputStorage.enum_values expected)")
+
+
+# ---------------------------------------------------------------------------------------------------------------- C20.f
+def _id_keyed_store_identity(ctx, rep, tier):
+    """C20.f: the debug store is keyed by id(); ids are reused after an object dies. Every reader and writer must check that the entry stored
+    under an id belongs to the object asked about (the weak reference kept next to it is that object), else a diagnostic depends on which dead
+    object owned the address before - i.e. on earlier compilations in the process and on memory layout - and may not render at all (C18)."""
+    import ast
+    model = ctx.model
+    rep.rule("C20.f", "id()-keyed debug store: writers and readers drop an entry whose weak reference is not the object asked about before using it")
+    ok = model.has("ProgramData._ensure_refmapped", "if cls._refmap[id(obj)]() is not obj:\n    cls._refmap[id(obj)] = weakref.ref(obj)\n    cls._children[id(obj)] = []\n    cls._collection[id(obj)] = {}")
+    rep.check(ok, "C20.f", "ProgramData._ensure_refmapped", "writer: an id now owned by another object starts from empty tables", "imbue() no longer resets the tables of a reused id")
+    rep.check(model.has("ProgramData.imbue", "cls._ensure_refmapped(obj)"), "C20.f", "ProgramData.imbue", "every write goes through the identity check", "imbue() writes without checking who owns the id")
+    lk = model.func("ProgramData.lookup")
+    body = strip_doc(lk.body)
+    first_read = next((i for i, st in enumerate(body) if "_collection[id_obj]" in ast.unparse(st) and not ("_refmap" in ast.unparse(st) and isinstance(st, ast.If) and "is not obj" in ast.unparse(st))), None)
+    guard = next((i for i, st in enumerate(body) if isinstance(st, ast.If) and
+                  any("cls._refmap[id_obj]() is not obj" in ast.unparse(t) for t in [st.test] + [e.test for e in ast.walk(st) if isinstance(e, ast.If)])), None)
+    okg = guard is not None and model.has("ProgramData.lookup", "del cls._refmap[id_obj]\ncls._collection[id_obj] = {}\ncls._children[id_obj] = []")
+    reads = [i for i, st in enumerate(body) if "_collection[id_obj][" in ast.unparse(st) or "tag not in ProgramData._collection[id_obj]" in ast.unparse(st)]
+    rep.check(okg and bool(reads) and guard < min(reads), "C20.f", "ProgramData.lookup", "reader: a stale entry (weak reference is not the object) is dropped before the tables are read",
+              "lookup() reads the tables of an id without checking that they belong to this object: a diagnostic citing a never-tagged object shows the position of a dead object "
+              "with the same address, or cannot be rendered (TypeError in the column marker) - dependent on earlier compilations and memory layout")
+
+
+_run_f20 = run
+
+
+def run(ctx, rep, tier):
+    _run_f20(ctx, rep, tier)
+    _id_keyed_store_identity(ctx, rep, tier)
